@@ -454,12 +454,18 @@ Fixpoint intersperse {A} (sep : A) (l : list A) : list A :=
   | a :: l' => a :: sep :: intersperse sep l'
   end.
 
-Definition chart_body (c : smchart) : option text :=
+Definition chart_placed (c : smchart) : option (list placed) :=
   let evs := chart_events c in
   match tm_beats (k_tbl cf) (bcos_of (c_bpms c)) (map (fun e : Q * Z * Z => fst (fst e)) evs) with
   | None => None
   | Some beats =>
-      let ps := map (fun be : Q * (Q * Z * Z) => place (fst be) (snd (fst (snd be))) (snd (snd be))) (combine beats evs) in
+      Some (map (fun be : Q * (Q * Z * Z) => place (fst be) (snd (fst (snd be))) (snd (snd be))) (combine beats evs))
+  end.
+
+Definition chart_body (c : smchart) : option text :=
+  match chart_placed c with
+  | None => None
+  | Some ps =>
       match write_measures ps (get_keys cf (c_type c)) (-1) (measures_of ps) with
       | None => None
       | Some out => Some (join [10%Z; 44%Z; 10%Z] out)
